@@ -3,6 +3,7 @@ package asm
 import (
 	"fmt"
 	"strconv"
+	"strings"
 
 	"github.com/llir/ll/ast"
 	asmenum "github.com/llir/llvm/asm/enum"
@@ -536,7 +537,14 @@ func (gen *generator) irDIEnumerator(new metadata.SpecializedNode, old *ast.DIEn
 		case *ast.ValueIntField:
 			if isUnsigned {
 				text := oldField.Value().Text()
-				x, err := strconv.ParseUint(text, 10, 64)
+				var x uint64
+				var err error
+				if strings.HasPrefix(text, "u0x") {
+					// unsigned hexadecimal integer literal
+					x, err = strconv.ParseUint(text[len("u0x"):], 16, 64)
+				} else {
+					x, err = strconv.ParseUint(text, 10, 64)
+				}
 				if err != nil {
 					panic(fmt.Errorf("unable to parse unsigned integer literal %q; %v", text, err))
 				}
